@@ -40,6 +40,7 @@ func checkC13(c *Ctx) {
 		}
 		c13Fanout(c, p, m)
 		c13Reaction(c, p, m)
+		noSideChannel(c, p, m, "R13.2")
 		lockDiscipline(c, p, "R13.6")
 		c02Newline(c, p, m)
 		writerSetNilSafe(c, p, m, "R13.3")
@@ -548,4 +549,44 @@ func (p *Prog) valShort(v ssa.Value) string {
 		return "?"
 	}
 	return v.Name()
+}
+
+// noSideChannel: what the package says about a failed Write goes through the logger (a gated entry point of the same
+// logger, R13.2) and nowhere else: no function of the failure region writes to a process-level device (os.Stderr /
+// os.Stdout, fmt.Print*/Fprint*, the print builtins). Such a note is a diagnostic nobody's level admitted, on a device
+// that was never selected for that logger, and it is not counted by the "at most one" rule.
+func noSideChannel(c *Ctx, p *Prog, m *Model, rule string) {
+	r := c.R
+	var bad []string
+	n := 0
+	for _, fn := range failureRegion(p, m) {
+		n++
+		for _, b := range fn.Blocks {
+			for _, in := range b.Instrs {
+				if cs, ok := in.(ssa.CallInstruction); ok {
+					if bi, isB := cs.Common().Value.(*ssa.Builtin); isB && (bi.Name() == "print" || bi.Name() == "println") {
+						bad = append(bad, shortName(fn)+" calls "+bi.Name()+" at "+p.Pos(instrPos(cs)))
+					}
+					if cal := calleeOf(cs); cal != nil && cal.Pkg != nil {
+						pp, nmx := cal.Pkg.Pkg.Path(), cal.Name()
+						if pp == "fmt" && (strings.HasPrefix(nmx, "Print") || strings.HasPrefix(nmx, "Fprint")) {
+							bad = append(bad, shortName(fn)+" calls fmt."+nmx+" at "+p.Pos(instrPos(cs)))
+						}
+						if pp == "log" && (strings.HasPrefix(nmx, "Print") || strings.HasPrefix(nmx, "Fatal") || strings.HasPrefix(nmx, "Panic") || nmx == "Output") {
+							bad = append(bad, shortName(fn)+" calls log."+nmx+" at "+p.Pos(instrPos(cs)))
+						}
+					}
+				}
+				for _, op := range in.Operands(nil) {
+					if g, ok := (*op).(*ssa.Global); ok && g.Pkg != nil && g.Pkg.Pkg.Path() == "os" && (g.Name() == "Stderr" || g.Name() == "Stdout") {
+						bad = append(bad, shortName(fn)+" uses os."+g.Name()+" at "+p.Pos(instrPos(in)))
+					}
+				}
+			}
+		}
+	}
+	bad = dedupStr(bad)
+	sort.Strings(bad)
+	r.Check(len(bad) == 0 && n > 0, rule, "no-side-channel", "-", fmt.Sprintf("none of the %d functions of the failure region writes to a process-level device", n),
+		"the failure handling writes around the logger ("+strings.Join(bad, "; ")+"): a note on a device never selected for that logger, admitted by nobody's level and outside the one-diagnostic bound")
 }
